@@ -14,6 +14,7 @@ import (
 	"fmt"
 	"io"
 	"math/rand"
+	"path/filepath"
 	"strings"
 
 	"github.com/ulikunitz/xz"
@@ -48,7 +49,16 @@ func xlateEncScript(rng *rand.Rand, n int) []string {
 	return s
 }
 
-func xlateTie(r *Result, dp *DriverPool, rng *rand.Rand, n int) error {
+func xlateTie(r *Result, mainPool *DriverPool, rng *rand.Rand, n int) error {
+	// the translated definitions run in their own executable (lean/GoSrcDriver.lean), next to the main driver
+	gpath := filepath.Join(filepath.Dir(mainPool.path), "gosrc")
+	dp, err := newDriverPool(gpath, 8)
+	if err != nil {
+		r.Violate("broken-correspondence", "xlate-exec driver", map[string]interface{}{"op": "xlate-exec", "path": gpath},
+			"the executable around the translated source (gosrc) is missing or does not start: the translation of the current source no longer builds — "+err.Error())
+		return nil
+	}
+	defer dp.Close()
 	mism := func(what, req string, goOut, leanOut string) {
 		r.Violate("broken-correspondence", "xlate-exec "+what,
 			map[string]interface{}{"op": "xlate-exec", "request": truncate(req, 2000), "go": truncate(goOut, 2000), "lean": truncate(leanOut, 2000)},
@@ -137,6 +147,79 @@ func xlateTie(r *Result, dp *DriverPool, rng *rand.Rand, n int) error {
 		}
 	}
 	r.Add("xlate_dec_scripts", n)
+	// the bit-level codecs: encode a random list of symbols (tree / reverse tree / direct / length / distance codecs),
+	// close, reopen as a decoder and decode the same list; every step's observation must be equal
+	for i := 0; i < n/2; i++ {
+		var encs, decs []string
+		k := 1 + rng.Intn(60)
+		for j := 0; j < k; j++ {
+			switch rng.Intn(6) {
+			case 0:
+				slot := rng.Intn(4)
+				encs = append(encs, fmt.Sprintf("te,%d,%d", slot, rng.Uint32()>>uint(rng.Intn(32))))
+				decs = append(decs, fmt.Sprintf("td,%d", slot))
+			case 1:
+				slot := rng.Intn(4)
+				encs = append(encs, fmt.Sprintf("re,%d,%d", slot, rng.Uint32()>>uint(rng.Intn(32))))
+				decs = append(decs, fmt.Sprintf("rd,%d", slot))
+			case 2:
+				nb := rng.Intn(27)
+				encs = append(encs, fmt.Sprintf("de,%d,%d", nb, rng.Uint32()))
+				decs = append(decs, fmt.Sprintf("dd,%d", nb))
+			case 3:
+				l := rng.Intn(272)
+				if rng.Intn(20) == 0 {
+					l = 272 + rng.Intn(3) // 272 and above: refused by the encoder
+				}
+				ps := rng.Intn(16)
+				encs = append(encs, fmt.Sprintf("le,%d,%d", l, ps))
+				if l <= 271 {
+					decs = append(decs, fmt.Sprintf("ld,%d", ps))
+				}
+			default:
+				var dist uint32
+				switch rng.Intn(4) {
+				case 0:
+					dist = uint32(rng.Intn(200))
+				case 1:
+					dist = uint32(1)<<uint(rng.Intn(32)) - uint32(rng.Intn(2))
+				case 2:
+					dist = 0xffffffff
+				default:
+					dist = rng.Uint32() >> uint(rng.Intn(32))
+				}
+				l := rng.Intn(272)
+				encs = append(encs, fmt.Sprintf("De,%d,%d", dist, l))
+				decs = append(decs, fmt.Sprintf("Dd,%d", l))
+			}
+		}
+		limit := int64(1<<63 - 1)
+		if rng.Intn(4) == 0 {
+			limit = int64(5 + rng.Intn(40*k/8+10))
+		}
+		steps := append(append(append([]string{}, encs...), "close", "open"), decs...)
+		if rng.Intn(6) == 0 {
+			steps = append(steps, decs...) // decoding past the end: io.EOF and what follows
+		}
+		var goSteps []string
+		for _, st := range steps {
+			goSteps = append(goSteps, strings.ReplaceAll(st, ",", " "))
+		}
+		goOut := strings.Join(lzma.VerifCodecScript(limit, goSteps), "|")
+		req := fmt.Sprintf("gosrc codec %d %s", limit, strings.Join(steps, " "))
+		leanOut, err := dp.Ask(req)
+		if err != nil {
+			return err
+		}
+		r.Count("xlate-codec/"+req, true)
+		if goOut != leanOut {
+			mism("codecs", req, goOut, leanOut)
+		}
+		if strings.Contains(goOut, "ErrLimit") {
+			r.Inc("xlate_codec_limit_hit")
+		}
+	}
+	r.Add("xlate_codec_scripts", n/2)
 	// pure functions
 	ask := func(req, want string) error {
 		got, err := dp.Ask(req)
